@@ -51,6 +51,9 @@ CLAIMED = {
  "C11": dict(cat="proof", tech="Coq operation machine on pools of views with invariant over arbitrary op sequences (induction on the op list); step-by-step correspondence of generated straight-line programs, attribute and emulation builds",
    text="Theorems C11_ctor_components, C11_convert_components, C11_assign_eq, C11_swap_exchanges, C11_swap_involutive, C11_designation_invariant (for every sequence of copy/move/assign/swap/convert operations each pool entry designates the same elements as an initial view; the machine has no heap component, so no operation reads or writes elements), C11_same_view_same_elements. Correspondence: generated programs of 6-12 (thorough up to 40) operations over chains of convertible mdspan types; after every operation (handle, handle tag, accessor state, extents, strides) of all live views and an element-buffer checksum are compared with the model, in [[no_unique_address]] and base-class-emulation builds (hook MDSPAN_VERIF_FORCE_NO_UNIQUE_ADDRESS_EMULATION).",
    ref="4/C11", note=NOTE_COMMON + " Partial: the compressed-pair specialisations / EBO emulation have no model content and are covered by building each configuration; overload resolution is observed."),
+ "C12": dict(cat="proof", tech="Coq model of mdarray as owning (mapping, container) with an operation machine over a store of arrays; theorems on sizing, access, view aliasing, copy independence, move, size(); step-by-step correspondence incl. all constructors, pmr, ASan",
+   text="Theorems C12_construct_size (value-initialised container of exactly required_span_size() elements; N for std::array), C12_adopts_container, C12_access (a(i...) = container()[mapping()(i...)]), C12_view_aliases (to_mdspan()/conversion operators: same mapping, handle = data(); a write through either is read through the other), C12_copy_independent, C12_write_original_leaves_copy, C12_move_transfers, C12_size_is_product. Correspondence: generated programs over layouts {left, right, stride with gaps, left/right padded} x containers {vector, array<N>, pmr::vector} exercising 13 constructors, copy, move, assign, writes through the array and through views; after every operation container size, size(), data()/to_mdspan()/conversion-operator/flag consistency, extents and all elements of every live array are compared with the model.",
+   ref="4/C12", note=NOTE_COMMON + " The standard containers are trusted; moved-from std::vector is observed empty."),
 }
 PENDING_REASON = "check under construction in this session (Coq theorems and correspondence driver not yet committed); not claimed until both exist"
 
